@@ -1,14 +1,34 @@
 """C17 - pathways are real, bottleneck-optimal and never over-explain the flux."""
-from pyvc.runner import Run, resolve_failures
+from pyvc.runner import Run, Unit, resolve_failures
+from contracts import tpt_path as TP
+
+PF = 'enspara/tpt/path.py'
+MUT_H = [('bottleneck-copy-dropped', PF, "    net_flux = copy.copy(net_flux)\n\n    bottleneck_ind = net_flux[path[:-1], path[1:]].argmin()\n", "    bottleneck_ind = net_flux[path[:-1], path[1:]].argmin()\n"),
+         ('subtracts-the-largest-edge', PF, "net_flux[path[:-1], path[1:]].min()", "net_flux[path[:-1], path[1:]].max()"),
+         ('removes-the-widest-edge', PF, "    net_flux = copy.copy(net_flux)\n\n    bottleneck_ind = net_flux[path[:-1], path[1:]].argmin()\n", "    net_flux = copy.copy(net_flux)\n\n    bottleneck_ind = net_flux[path[:-1], path[1:]].argmax()\n")]
+MUT_P = [('one-path-too-many', PF, "        if counter >= num_paths or expl_flux >= flux_cutoff:", "        if counter > num_paths or expl_flux >= flux_cutoff:"),
+         ('caller-matrix-edited', PF, "    net_flux = copy.copy(net_flux)\n\n    paths = []", "    net_flux = np.asarray(net_flux)\n    net_flux[:, sources] = 0.0\n\n    paths = []"),
+         ('infinite-flux-recorded', PF, "        if np.isinf(flux):\n            break\n", "")]
 
 
 def run(tier, seed, update_lock=False):
     R = Run('C17', 'other', tier, seed)
+    units = [Unit('path-removal', TP.registry(), mutants=MUT_H),
+             Unit('paths[subtract]', TP.registry_paths('subtract', False), keys=[TP.F + 'paths'], mutants=MUT_P),
+             Unit('paths[bottleneck]', TP.registry_paths('bottleneck', False), keys=[TP.F + 'paths']),
+             Unit('paths[subtract,unlimited]', TP.registry_paths('subtract', True), keys=[TP.F + 'paths'])]
+    for u in units:
+        R.prove(u)
+    for u in units:
+        R.canary_check(u)
+    R.conformance('C17.py', units, args=['--exclude=' + ','.join(R.excluded())])
     R.bounded('C17.py', 'run-time contracts (the statement, with exhaustive simple-path enumeration as the optimality oracle) on the real top_path / paths',
               '4-node digraphs over 3 weight levels (strided), seeded 5-6 node digraphs, conserved layered flows at scales 1 and 1e-9, re-relaxation graphs, both removal schemes, num_paths 1..2',
               args=['--exclude=' + ','.join(R.excluded())])
     R.report_known('C17.py')
     resolve_failures(R, 'C17.py', lambda f: None)
-    R.clauses = [{'clause': 'every pathway is a simple source-to-sink path along positive residual edges whose reported flux is its smallest edge; top path has the largest bottleneck', 'status': 'bounded (exhaustive path enumeration on graphs <= 6 nodes); the inductive invariants of the search loop were checked by hand-encoded VCs in the design phase only'},
+    R.clauses = [{'clause': 'path removal: _remove_bottleneck zeroes exactly the first minimal edge of the path; _subtract_path_flux lowers every path edge by the bottleneck flux (nothing negative appears, a bottleneck edge becomes exactly 0); every other entry and the caller\'s matrix unchanged. paths(): one flux per path, never more paths than requested, every reported flux finite and positive, preconditions of the removal step hold at every call, caller\'s flux matrix unchanged - given top_path\'s contract', 'status': 'proved (SMT on the real helpers and the real paths loop; top_path\'s contract is ASSUMED there and checked by the bounded driver)'},
+                 {'clause': 'every pathway is a simple source-to-sink path along positive residual edges whose reported flux is its smallest edge; top path has the largest bottleneck', 'status': 'bounded (exhaustive path enumeration on graphs <= 6 nodes); the inductive invariants of the search loop were checked by hand-encoded VCs in the design phase only'},
                  {'clause': 'successive fluxes never increase; sum <= source outflow (subtract scheme); reaches the requested fraction for conserved flows; num_paths respected; caller\'s matrix unchanged', 'status': 'bounded; bottleneck scheme over-explains: listed finding'}]
-    return R.finish('Bounded stand-in. A full inductive proof of widest-path optimality over NumPy-vectorised relaxation is deliberately not attempted (DESIGN 9).', update_lock=update_lock)
+    R.assumptions += ['top_path (Dijkstra search with a Python list as queue) is not under a proved contract: its contract is assumed at the call site in paths() and exercised by the bounded driver against exhaustive path enumeration']
+    return R.finish('Deductive: path-removal helpers and the paths() loop modulo top_path. Bounded stand-in for the rest. A full inductive proof of widest-path optimality over NumPy-vectorised relaxation is deliberately not attempted (DESIGN 9).', update_lock=update_lock)
